@@ -95,7 +95,7 @@ func genCase(t *rapid.T) Case {
 	var c Case
 	n := rapid.IntRange(2, 25).Draw(t, "n")
 	c.Transport = rapid.SampledFrom([]string{"unix", "unix", "unix", "tcp", "tcps", "tcps"}).Draw(t, "transport")
-	kinds := []string{"frame", "frame", "frame", "frame", "reg", "reg", "reg", "dirinfo", "flood", "halfframe", "terminate", "unregister", "regburst", "multiflood", "postflood", "strangeconn", "badauth", "badauth", "regmany"}
+	kinds := []string{"frame", "frame", "frame", "frame", "reg", "reg", "reg", "dirinfo", "flood", "halfframe", "terminate", "unregister", "regburst", "multiflood", "postflood", "strangeconn", "badauth", "badauth", "regmany", "deafsub"}
 	if vt.Thorough() {
 		kinds = append(kinds, "floodnoread")
 	}
@@ -430,6 +430,34 @@ func checkCase(c Case) error {
 						break
 					}
 				}
+				conn.Close()
+			}
+		case "deafsub":
+			// a second hostile connection subscribes to the signal of the pong
+			// service, shuts down the reading side of its own socket (on a unix
+			// socket whatever the server writes to it fails from then on, while the
+			// server keeps reading from it) and goes on sending: posts which make
+			// the object emit that signal to its listed, unreachable subscriber
+			if conn, err := netkit.DialConn(env.Addr); err == nil {
+				conn.SetWriteDeadline(time.Now().Add(3 * time.Second))
+				conn.Write(authFrame())
+				time.Sleep(2 * time.Millisecond)
+				b := binary.LittleEndian.AppendUint32(nil, 1)
+				b = binary.LittleEndian.AppendUint32(b, 102)
+				b = binary.LittleEndian.AppendUint64(b, uint64(770000+i))
+				conn.Write(netkit.Frame{Type: netkit.Call, ID: 5, Service: w.pongID, Object: 1, Action: 0, Payload: b}.Encode())
+				time.Sleep(5 * time.Millisecond)
+				if cr, ok := conn.(interface{ CloseRead() error }); ok {
+					cr.CloseRead()
+					vt.Label("deaf-subscriber(reading-side-shut-down)")
+				}
+				for k := 0; k < 6; k++ {
+					if _, err := conn.Write(netkit.Frame{Type: netkit.Post, ID: uint32(20 + 2*k), Service: w.pongID, Object: 1, Action: 101, Payload: netkit.StringPayload("deaf:p")}.Encode()); err != nil {
+						break
+					}
+					time.Sleep(200 * time.Microsecond)
+				}
+				time.Sleep(3 * time.Millisecond)
 				conn.Close()
 			}
 		case "regmany":
